@@ -10,6 +10,18 @@ namespace Crs
 
 abbrev Bytes := List Char
 
+/-- How an operation can fail. `diag`: a deliberate diagnostic (returned error, `logger.Fatal` = exit 1,
+    `logger.Panic` = exit 2 with a message). `runtime`: what would be a Go runtime fault (index out of
+    range, nil dereference). -/
+inductive Fault where
+  | diag
+  | runtime
+  /-- driver only: the table that stands for the regex engine has no entry for this query yet;
+      the harness computes the real `rassemble.Join` result, adds it and runs the operation again.
+      Engines in theorems never return it (`Engine.Total`). -/
+  | need (query : List (List Char))
+  deriving DecidableEq, Repr
+
 /-- literal helper: `B "##!>"` -/
 @[inline] def B (s : String) : Bytes := s.toList
 
